@@ -192,6 +192,22 @@ theorem control_never_delivered_but_advances (cfg : Cfg) (L : List LUnit) (b0 : 
     · have ⟨_, _, _, _, r5⟩ := resp_rc cfg hrc L b0 st es pt idx hwf hbase hf hn
       exact r5 (.batch b) hb r hr
 
+/-- **pid_reuse_after_abort** (corollary): a transactional batch of the response whose transaction is not aborted
+    (the first control batch of its producer after it is not an abort marker) has all its records from the asked
+    offset on delivered – also when the same producer id aborted an earlier transaction that is listed in the index -/
+theorem pid_reuse_after_abort (cfg : Cfg) (hrc : cfg.readCommitted = true) (L : List LUnit) (b0 : Int) (st : PState)
+    (es : List Entry) (pt : Bool) (idx : List (Int × Int))
+    (hwf : LogWF cfg.tsFromWrapper b0 L) (hbase : BaseWF L) (hf : FaithfulTxnData L st.offset es idx)
+    (hn : nRecs es ≠ 0) (A S : List LUnit) (b : Batch) (hL : L = A ++ LUnit.bat b :: S) (hb : Entry.batch b ∈ es)
+    (hkeep : keepRC (LUnit.bat b) S = true) :
+    ∀ m ∈ batchRecs b, st.offset ≤ m.off → m ∈ (parseBlock cfg st (.data es pt idx)).1 := by
+  intro m hm hge
+  have ⟨r1, _, _, _, r5⟩ := resp_rc cfg hrc L b0 st es pt idx hwf hbase hf hn
+  rw [r1]
+  simp only [window, List.mem_filter, decide_eq_true_eq]
+  refine ⟨(visibleIso_mem true _ m L).2 ⟨A, LUnit.bat b, S, hL, by simpa [keepIso] using hkeep, hm⟩, hge, ?_⟩
+  exact r5 (.batch b) hb m hm
+
 /-- **read_uncommitted_all_data**: with ReadUncommitted every data record of the fetched range is delivered, whatever
     the outcome of its transaction and whatever the index says; control records are not -/
 theorem read_uncommitted_all_data (cfg : Cfg) (hru : cfg.readCommitted = false) (L : List LUnit) (b0 : Int) (st : PState)
